@@ -263,3 +263,112 @@ Definition train_int (arity : nat) (rows : list trow) : result istate :=
   end.
 End Interaction.
 End Train.
+
+(* ======== vocabulary of the source translations (harness/src_functions.py, entries C04_*;
+   Generated/SrcTrain.v).  No proofs here. ======== *)
+
+(* the float32 cast as a parameter type *)
+Definition cast_fn : Type := Qc -> oval.
+
+(* a.all() / a.any() on a bool array *)
+Definition all_true (l : list bool) : bool := forallb (fun b => b) l.
+Definition any_true (l : list bool) : bool := existsb (fun b => b) l.
+
+(* np.clip(x, a_min=lo, a_max=hi) elementwise: NaN propagates, infinities are clipped *)
+Definition oclip_at (lo hi : Qc) (v : oval) : oval :=
+  match v with
+  | OFin q => OFin (qclip lo hi q)
+  | ONaN => ONaN
+  | OInf true => OFin lo
+  | OInf false => OFin hi
+  end.
+
+(* zip(a, b, c, d) / zip(a, b, c, d, e): stops at the shortest *)
+Fixpoint zip4 {A B C D : Type} (a : list A) (b : list B) (c : list C) (d : list D) : list (A * B * C * D) :=
+  match a, b, c, d with
+  | x :: a', y :: b', z :: c', w :: d' => (x, y, z, w) :: zip4 a' b' c' d'
+  | _, _, _, _ => []
+  end.
+Fixpoint zip5 {A B C D E : Type} (a : list A) (b : list B) (c : list C) (d : list D) (e : list E)
+  : list (A * B * C * D * E) :=
+  match a, b, c, d, e with
+  | x :: a', y :: b', z :: c', w :: d', u :: e' => (x, y, z, w, u) :: zip5 a' b' c' d' e'
+  | _, _, _, _, _ => []
+  end.
+
+(* row[i] on one row of treatment ids (a 1-d integer array): a negative index counts from the end,
+   out of range is an IndexError (tag 4) *)
+Definition id_at (l : list Z) (i : Z) : result Z :=
+  let j := if i <? 0 then i + Z.of_nat (length l) else i in
+  if j <? 0 then Err 4
+  else match nth_error l (Z.to_nat j) with Some a => Ok a | None => Err 4 end.
+
+(* a[mask]: the entries where the boolean mask is True *)
+Fixpoint select {A : Type} (mask : list bool) (l : list A) : list A :=
+  match mask, l with
+  | b :: m', x :: l' => if b then x :: select m' l' else select m' l'
+  | _, _ => []
+  end.
+(* a[mask, i] for a 2-d id array: column i of the selected rows *)
+Definition column (i : nat) (rows : list (list Z)) : list Z := map (fun t => nth i t 0) rows.
+(* np.sum(a == CONTROL_SENTINEL_VALUE, axis=1): controls per row *)
+Definition ctrl_counts (rows : list (list Z)) : list Z := map (fun t => Z.of_nat (count_ctrl t)) rows.
+(* a == v elementwise on an integer array; a & b elementwise on bool arrays *)
+Definition eq_vec (a : list Z) (v : Z) : list bool := map (fun x => x =? v) a.
+Fixpoint and_vec (a b : list bool) : list bool :=
+  match a, b with
+  | x :: a', y :: b' => (x && y) :: and_vec a' b'
+  | _, _ => []
+  end.
+(* np.sort(a, axis=1)[:, -1]: the largest id of each row *)
+Definition row_maxima (rows : list (list Z)) : list Z := map zmax_list rows.
+(* the value 1.0 *)
+Definition oone : oval := OFin 1%Qc.
+
+(* ---- LegacySparseDrugCombo(Interaction)Impl: the training arrays and the index dictionaries ----
+   y / cline / dd1 / dd2 are Python lists, cline_idxs / dd1_idxs / dd2_idxs are defaultdict(list):
+   insertion-ordered association lists id -> list of row numbers *)
+Record legacy := {
+  lg_y : list oval; lg_cline : list Z; lg_dd1 : list Z; lg_dd2 : list Z;
+  lg_cline_idxs : list (Z * list Z); lg_dd1_idxs : list (Z * list Z); lg_dd2_idxs : list (Z * list Z)
+}.
+Definition set_lg_y (o : legacy) (v : list oval) : legacy :=
+  {| lg_y := v; lg_cline := lg_cline o; lg_dd1 := lg_dd1 o; lg_dd2 := lg_dd2 o;
+     lg_cline_idxs := lg_cline_idxs o; lg_dd1_idxs := lg_dd1_idxs o; lg_dd2_idxs := lg_dd2_idxs o |}.
+Definition set_lg_cline (o : legacy) (v : list Z) : legacy :=
+  {| lg_y := lg_y o; lg_cline := v; lg_dd1 := lg_dd1 o; lg_dd2 := lg_dd2 o;
+     lg_cline_idxs := lg_cline_idxs o; lg_dd1_idxs := lg_dd1_idxs o; lg_dd2_idxs := lg_dd2_idxs o |}.
+Definition set_lg_dd1 (o : legacy) (v : list Z) : legacy :=
+  {| lg_y := lg_y o; lg_cline := lg_cline o; lg_dd1 := v; lg_dd2 := lg_dd2 o;
+     lg_cline_idxs := lg_cline_idxs o; lg_dd1_idxs := lg_dd1_idxs o; lg_dd2_idxs := lg_dd2_idxs o |}.
+Definition set_lg_dd2 (o : legacy) (v : list Z) : legacy :=
+  {| lg_y := lg_y o; lg_cline := lg_cline o; lg_dd1 := lg_dd1 o; lg_dd2 := v;
+     lg_cline_idxs := lg_cline_idxs o; lg_dd1_idxs := lg_dd1_idxs o; lg_dd2_idxs := lg_dd2_idxs o |}.
+Definition set_lg_cline_idxs (o : legacy) (v : list (Z * list Z)) : legacy :=
+  {| lg_y := lg_y o; lg_cline := lg_cline o; lg_dd1 := lg_dd1 o; lg_dd2 := lg_dd2 o;
+     lg_cline_idxs := v; lg_dd1_idxs := lg_dd1_idxs o; lg_dd2_idxs := lg_dd2_idxs o |}.
+Definition set_lg_dd1_idxs (o : legacy) (v : list (Z * list Z)) : legacy :=
+  {| lg_y := lg_y o; lg_cline := lg_cline o; lg_dd1 := lg_dd1 o; lg_dd2 := lg_dd2 o;
+     lg_cline_idxs := lg_cline_idxs o; lg_dd1_idxs := v; lg_dd2_idxs := lg_dd2_idxs o |}.
+Definition set_lg_dd2_idxs (o : legacy) (v : list (Z * list Z)) : legacy :=
+  {| lg_y := lg_y o; lg_cline := lg_cline o; lg_dd1 := lg_dd1 o; lg_dd2 := lg_dd2 o;
+     lg_cline_idxs := lg_cline_idxs o; lg_dd1_idxs := lg_dd1_idxs o; lg_dd2_idxs := v |}.
+
+(* what the index dictionaries must be: for every id of a column, in order of first occurrence,
+   the ascending list of the positions (row numbers from 0) at which the column holds it *)
+Fixpoint positions_from (i : Z) (k : Z) (col : list Z) : list Z :=
+  match col with
+  | [] => []
+  | c :: r => if c =? k then i :: positions_from (i + 1) k r else positions_from (i + 1) k r
+  end.
+Definition positions (k : Z) (col : list Z) : list Z := positions_from 0 k col.
+Definition first_occurrences (col : list Z) : list Z :=
+  fold_left (fun acc c => if existsb (Z.eqb c) acc then acc else acc ++ [c]) col [].
+Definition index_dict (col : list Z) : list (Z * list Z) :=
+  map (fun k => (k, positions k col)) (first_occurrences col).
+
+(* the legacy object that holds the training rows [st] (one [trip] per _update call, in order) *)
+Definition legacy_of (st : list trip) : legacy :=
+  {| lg_y := map tr_y st; lg_cline := map tr_cl st; lg_dd1 := map tr_d1 st; lg_dd2 := map tr_d2 st;
+     lg_cline_idxs := index_dict (map tr_cl st); lg_dd1_idxs := index_dict (map tr_d1 st);
+     lg_dd2_idxs := index_dict (map tr_d2 st) |}.
